@@ -71,6 +71,12 @@ Plan gen_c07(uint64_t seed, int tier)
   {
     p.cfg["signal_handler"] = 1;
     p.cfg["sig_logger_named"] = r.chance(1, 2) ? 1 : 0;
+    // The signal clause is not conditioned on wait_for_queues_to_empty_before_exit (only the stop / exit clause is): one
+    // signal run in three has it switched off — what the signalled thread logged and the notice are owed all the same
+    if (Rng(seed ^ 0x3a17e0).chance(1, 3))
+    {
+      p.cfg["wait_empty"] = 0;
+    }
   }
   int nthreads = static_cast<int>(r.range(1, 3));
   int nexited = static_cast<int>(r.range(0, 2));
